@@ -57,7 +57,7 @@ func keepsClass(info *types.Info, e ast.Expr, o types.Object) (keeps bool, menti
 	if !usesObj(info, e, o) {
 		return false, false, "does not use the error"
 	}
-	if objOf(info, e) == o {
+	if errVarOf(info, e) == o {
 		return true, true, "returned unchanged"
 	}
 	c, ok := e.(*ast.CallExpr)
